@@ -478,7 +478,7 @@ Step ==
                   ELSE IF c.t = "null" THEN {}
                   ELSE IF e.res = "ok" THEN
                     (IF Compat(c, ty) = "refuse" THEN {V("C07", l, "value accepted by a column type that cannot carry it")}
-                     ELSE IF Compat(c, ty) = "carries" THEN
+                     ELSE IF Compat(c, ty) = "carries" \/ (c.t \in {"dt", "date"} /\ ty \in {7, 10, 12}) THEN
                        LET d == BinCellAt(e.out, 1, ty, fl) IN
                        IF ~d.ok \/ d.next # Len(e.out) + 1 THEN {V(IF isint THEN "C15" ELSE "C07", l, "encoded bytes do not decode at the column's type")}
                        ELSE IF ~BinMatch(d.d, c) THEN {V(IF isint THEN "C15" ELSE "C07", l, "accepted value is sent as a different value")}
@@ -513,6 +513,7 @@ Step ==
                       ELSE IF mm.dead = "shim callback failed" \/ mm.wpanic THEN {V("C19", l, "a failing shim callback ended in a panic instead of an error return at " \o e.site)}
                       ELSE {V("C20", l, "run_on panicked at " \o e.site)})
                   ELSE IF res \in {"livelock", "timeout"} THEN {V("C20", l, "run_on did not terminate")}
+                         \cup (IF mm.fault THEN {V("C19", l, "run_on neither returned an error nor Ok after the transport had failed: it does not terminate")} ELSE {})
                   \* (the outcome rule for a clean end does not depend on how the replies looked)
                   ELSE IF mm.lost /\ ~mm.free /\ mm.dead = "" /\ ~mm.fault /\ ~mm.blocked /\ clean /\ res = "err"
                        THEN {V("C19", l, "run_on returned an error although the client closed the connection at a command boundary and nothing had failed")}
@@ -562,6 +563,7 @@ Step ==
                             THEN {V("C01", l, "the connection ended (" \o res \o ") in the middle of a well-formed command stream: commands the client sent never reach the shim")}
                                  \cup (IF FirstNew(mm.q) # 0 /\ mm.q[FirstNew(mm.q)].cls.cb # ""
                                        THEN {V("C02", l, "a command never reached its callback " \o mm.q[FirstNew(mm.q)].cls.cb \o ": the connection ended (" \o res \o ") although nothing had failed")}
+                                            \cup (IF mm.q[FirstNew(mm.q)].cls.kind = "close" THEN {V("C10", l, "a COM_STMT_CLOSE never reached on_close: the connection ended instead")} ELSE {})
                                        ELSE {})
                             ELSE {}
                 \* a rejected login is answered with ERR 1045: written but never flushed is not "received"
